@@ -21,3 +21,15 @@ claim('C05', 'property-based testing: generated define/usage programs incl. sing
       'Exploration: ~160 000 (quick) / 1.9 M (thorough) generated programs covering formals/defaults/empty and omitted actuals/nested brackets/strings/pasting/stringification/continuations/nested usages/redefinition; expected DefineNotFound / DefineArgNotFound / DefineNoArgs payloads are checked by injecting exactly one fault. Known finding K6 is classified by an exact model deviation flag.',
       'Trusts the reference model and lexer; constructs whose meaning the standard leaves open (more actuals than formals, usages inside `"…`") are not generated.',
       'DESIGN.md 6 C05, 4.4')
+claim('C09', 'fault/shape enumeration + random mixtures in isolated child processes: every cycle length and chain depth, oracle on the error structure / expanded tokens',
+      'Exploration (enumerated): all macro-cycle lengths 1-8, include-cycle lengths 1-5, macro->include and `include `MACRO cycles, every macro-chain and include-chain depth 1-80, cross products of macro depth x include depth around the limit, interleaved chains, plus random mixtures; each case runs in its own process so a stack overflow, fd exhaustion or hang is observed rather than fatal.',
+      'A child killed by a signal is a violation; a hang is declared only after a 20 s and a solitary 150 s run both fail to finish (normal cost: milliseconds).',
+      'DESIGN.md 6 C09')
+claim('C10', 'property-based testing: generated include graphs vs. reference model; ignore_include with the include files deleted; same-line templates; search-order rule in child processes with their own cwd',
+      'Exploration: ~12 000 generated include graphs (decoy copies in later include directories make a wrong search order visible; defines cross the boundary both ways) compared token-for-token and by define table / Include{File} error with the model; ~4 000 trees under ignore_include with the files removed from disk; ~3 000 same-line templates (IncludeLine iff something other than blanks/comments shares the line); ~400 (quick) child processes checking cwd-first / first-include-path / absolute / nowhere.',
+      'Trusts the reference model and the stated search rule as implemented independently in the harness.',
+      'DESIGN.md 6 C10')
+claim('C11', 'property-based testing: returned define table vs. reference model; metamorphic relation threaded runs == concatenation',
+      'Exploration: ~40 000 generated programs whose returned table (names, formals, defaults, body text) must equal the model\'s, and ~30 000 programs cut into 2-4 parts where threading the returned table through successive runs must give byte-identical text and the same final table (positions aside) as one run over the concatenation.',
+      'SV_COV_* constants are left aside as the property states; parts end with a newline outside conditionals.',
+      'DESIGN.md 6 C11')
